@@ -29,7 +29,7 @@ TInit == /\ cfg = [none |-> TRUE] /\ InitRest /\ l = 1 /\ ok = TRUE /\ nruns = 0
 TReset ==
   /\ E.ev = "Reset"
   /\ nruns' = nruns + 1
-  /\ IF E.n = N
+  /\ IF E.n = N /\ "init" \notin DOMAIN E
        THEN /\ ok' = TRUE
             /\ cfg' = CfgOf(E)
             /\ status' = [s \in Steps |-> NS] /\ retry' = [s \in Steps |-> 0] /\ doneCnt' = [s \in Steps |-> 0]
